@@ -577,13 +577,15 @@ class ProcessPair(Harness):
         for s_ in range(self.S):
             eng.assume((d["rmin"][s_] > 0) & (d["rmin"][s_] < d["rmax"][s_]))
         d["_cosmo"] = UFCosmology()
+        d["empty"] = [eng.choose(2, "tree%d_empty" % i) for i in range(2 * self.B)]
         return d
 
     def concrete_inputs(self, m, inp):
         from vf.stubs.cosmology import TableCosmology
         from vf.symx import model_value
 
-        out = concretise(m, {k: v for k, v in inp.items() if k != "_cosmo"})
+        out = concretise(m, {k: v for k, v in inp.items() if k not in ("_cosmo", "empty")})
+        out["empty"] = inp["empty"]
         cosmo = inp["_cosmo"]
         table = [(float(model_value(m, a)), float(model_value(m, cosmo.f(a)))) for a in getattr(cosmo, "_seen", [])]
         out["_cosmo"] = TableCosmology(table)
@@ -602,16 +604,30 @@ class ProcessPair(Harness):
             cosmo._seen = Engine_apps(cosmo)
         log = []
 
+        empties = inp.get("empty", [0] * (2 * B))
+
         class T:
-            def __init__(self, b, side, sw):
-                self.b, self.side, self.sum_weights = b, side, sw
+            """recorder with the public attributes of AngularTree (an empty tree: no records, zero weight sum, no KD-tree)"""
+
+            def __init__(self, b, side, sw, empty=False):
+                self.b, self.side, self.is_empty = b, side, bool(empty)
+                self.sum_weights = 0.0 if empty else sw
+                self.num_records = 0 if empty else 5
+                self.tree = None if empty else object()
+                self.weights = None
+                self.data = np.empty((0, 3)) if empty else np.zeros((5, 3))
 
             def count(self, other, ang_min, ang_max, *, weight_scale=None, weight_res=50):
                 log.append((self.b, other.b, other.side, ang_min, ang_max, weight_scale, weight_res))
+                if self.is_empty or other.is_empty:
+                    return np.zeros(S)
                 return inp["res"][self.b].copy()
 
-        trees1 = [T(b, 1, inp["sw1"][b]) for b in range(B)]
-        trees2 = [T(b, 2, inp["sw2"][b]) for b in range(B)] if self.binned2 else None
+            def __len__(self):
+                return self.num_records
+
+        trees1 = [T(b, 1, inp["sw1"][b], empties[b]) for b in range(B)]
+        trees2 = [T(b, 2, inp["sw2"][b], empties[B + b]) for b in range(B)] if self.binned2 else None
         single2 = T(-1, 2, inp["sw2"][0])
 
         class FakeBinned:
@@ -638,11 +654,18 @@ class ProcessPair(Harness):
             r = meas.process_patch_pair(meas.PatchPair(3, 5, "P1", "P2"), cfg)
         finally:
             meas.BinnedTrees = old
-        out = [Check("ids", cond=(r.id1 == 3 and r.id2 == 5 and len(log) == B)),
-               Check("counts", r.counts, wrap(np.asarray(inp["res"]).T)),
-               Check("sum_weights1", r.sum_weights1, inp["sw1"]),
-               Check("sum_weights2", r.sum_weights2, inp["sw2"] if self.binned2 else vec(lambda b: inp["sw2"][0], B))]
-        for b, rec in enumerate(log[:B]):
+        e1 = [bool(empties[b]) for b in range(B)]
+        e2 = [bool(empties[B + b]) if self.binned2 else False for b in range(B)]
+        exp_counts = wrap(np.array([[0.0 if (e1[b] or e2[b]) else inp["res"][b][s_] for b in range(B)] for s_ in range(S)], dtype=object)) \
+            if isinstance(inp["res"][0][0], SV) else np.array([[0.0 if (e1[b] or e2[b]) else inp["res"][b][s_] for b in range(B)] for s_ in range(S)])
+        out = [Check("ids", cond=(r.id1 == 3 and r.id2 == 5)),
+               Check("counts", r.counts, exp_counts),
+               Check("sum_weights1", r.sum_weights1, vec(lambda b: 0.0 if e1[b] else inp["sw1"][b], B)),
+               Check("sum_weights2", r.sum_weights2, vec(lambda b: (0.0 if e2[b] else inp["sw2"][b]) if self.binned2 else inp["sw2"][0], B))]
+        if len(log) != B:  # bins may only be skipped when nothing can be counted there
+            out.append(Check("all_bins_visited_or_trivially_empty", cond=all((e1[b] or e2[b]) or any(l[0] == b for l in log) for b in range(B))))
+        for rec in log:
+            b = rec[0]
             zmid = (e[b] + e[b + 1]) / 2.0
             out.append(Check("bin%d_trees" % b, cond=(rec[0] == b and rec[2] == 2 and rec[1] == (b if self.binned2 else -1))))
             out.append(Check("bin%d_ang_min" % b, rec[3], vec(lambda s_: theta_of(inp["rmin"][s_], self.unit, zmid, cosmo), S)))
